@@ -167,28 +167,29 @@ theorem safeP_rpc {ok : Call → Bool} {P : Prop} {m : String} {a : List String}
 
 /-! ### generated definitions as a simp set -/
 attribute [ctl_gen] K onCode onErrno onPid onState onIgn onArg onApi onNames onArgs onPname onMatch
-  dflt_a0 do_add_a2 do_add_a3 do_add_a4 do_add_g0 do_add_g1 do_add_g2 do_avail_a0
-  do_avail_a3 do_avail_g0 do_avail_g1 do_clear_a1 do_clear_g1 do_clear_g2 do_maintail_a1 do_maintail_a12
-  do_maintail_a6 do_maintail_a8 do_maintail_a9 do_maintail_g1 do_maintail_g2 do_maintail_g5 do_maintail_g6 do_pid_a4
-  do_pid_a6 do_pid_g1 do_pid_g2 do_pid_g3 do_pid_g4 do_reload_a0 do_reload_a5 do_reload_g0
-  do_reload_g3 do_remove_a2 do_remove_g0 do_remove_g1 do_reread_a0 do_reread_a3 do_reread_g0 do_reread_g1
-  do_reread_g2 do_restart_a1 do_restart_g1 do_shutdown_a0 do_shutdown_a5 do_shutdown_a6 do_shutdown_g0 do_shutdown_g3
-  do_shutdown_g4 do_shutdown_g5 do_signal_a1 do_signal_a9 do_signal_g1 do_signal_g2 do_signal_g3 do_signal_g4
-  do_start_a2 do_start_a7 do_start_a8 do_start_c0_1 do_start_c1_1 do_start_c2_1 do_start_g1 do_start_g2
-  do_start_g3 do_start_g4 do_status_a0 do_status_a13 do_status_a14 do_status_a8 do_status_g1 do_status_g2
+  dflt_a0 do_add_a1 do_add_a3 do_add_a4 do_add_a5 do_add_g0 do_add_g1 do_add_g2
+  do_add_g3 do_avail_a0 do_avail_a3 do_avail_g0 do_avail_g1 do_clear_a1 do_clear_g1 do_clear_g2
+  do_maintail_a1 do_maintail_a12 do_maintail_a6 do_maintail_a8 do_maintail_a9 do_maintail_g1 do_maintail_g2 do_maintail_g5
+  do_maintail_g6 do_pid_a4 do_pid_a6 do_pid_g1 do_pid_g2 do_pid_g3 do_pid_g4 do_reload_a0
+  do_reload_a5 do_reload_g0 do_reload_g3 do_remove_a1 do_remove_a3 do_remove_g0 do_remove_g1 do_remove_g2
+  do_reread_a0 do_reread_a3 do_reread_g0 do_reread_g1 do_reread_g2 do_restart_a1 do_restart_g1 do_shutdown_a0
+  do_shutdown_a5 do_shutdown_a6 do_shutdown_g0 do_shutdown_g3 do_shutdown_g4 do_shutdown_g5 do_signal_a1 do_signal_a11
+  do_signal_a9 do_signal_g1 do_signal_g2 do_signal_g3 do_signal_g4 do_signal_g5 do_start_a10 do_start_a2
+  do_start_a7 do_start_a9 do_start_c0_1 do_start_c1_1 do_start_c2_1 do_start_g1 do_start_g2 do_start_g3
+  do_start_g4 do_start_g5 do_status_a0 do_status_a13 do_status_a14 do_status_a8 do_status_g1 do_status_g2
   do_status_g5 do_status_g6 do_stop_a2 do_stop_a6 do_stop_c0_1 do_stop_c1_1 do_stop_c2_1 do_stop_g1
-  do_stop_g2 do_stop_g3 do_stop_g4 do_tail_a1 do_tail_a10 do_tail_a11 do_tail_a15 do_tail_a2
-  do_tail_a20 do_tail_a9 do_tail_g1 do_tail_g11 do_tail_g12 do_tail_g13 do_tail_g2 do_tail_g4
-  do_tail_g5 do_update_a10 do_update_a2 do_update_a7 do_update_g0 do_version_a0 do_version_g0 onecmd_a14
-  onecmd_a15 onecmd_a18 onecmd_g4 setexit_a0 setexit_a1 setexit_g0 setexit_g1 upcheck_a11
-  upcheck_a2 upcheck_a4 upcheck_a6 upcheck_a7 upcheck_a9 upcheck_g0 upcheck_g1 upcheck_g2
-  upcheck_g3
+  do_stop_g2 do_stop_g3 do_stop_g4 do_stop_g5 do_tail_a1 do_tail_a10 do_tail_a11 do_tail_a15
+  do_tail_a2 do_tail_a20 do_tail_a9 do_tail_g1 do_tail_g11 do_tail_g12 do_tail_g13 do_tail_g2
+  do_tail_g4 do_tail_g5 do_update_a11 do_update_a2 do_update_a7 do_update_a9 do_update_g0 do_version_a0
+  do_version_g0 onecmd_a14 onecmd_a15 onecmd_a18 onecmd_g4 setexit_a0 setexit_a1 setexit_g0
+  setexit_g1 taillistener_a0 upcheck_a11 upcheck_a2 upcheck_a4 upcheck_a6 upcheck_a7 upcheck_a9
+  upcheck_g0 upcheck_g1 upcheck_g2 upcheck_g3
 attribute [ctl_gen] Faults_UNKNOWN_METHOD Faults_INCORRECT_PARAMETERS Faults_BAD_ARGUMENTS Faults_SIGNATURE_UNSUPPORTED
   Faults_SHUTDOWN_STATE Faults_BAD_NAME Faults_BAD_SIGNAL Faults_NO_FILE Faults_NOT_EXECUTABLE Faults_FAILED
   Faults_ABNORMAL_TERMINATION Faults_SPAWN_ERROR Faults_ALREADY_STARTED Faults_NOT_RUNNING Faults_SUCCESS
   Faults_ALREADY_ADDED Faults_STILL_RUNNING Faults_CANT_REREAD DEAD_PROGRAM_FAULTS STOPPED_STATES
   LSBInit_SUCCESS LSBInit_GENERIC LSBInit_INVALID_ARGS LSBInit_UNIMPLEMENTED_FEATURE LSBInit_INSUFFICIENT_PRIVILEGES
-  LSBInit_NOT_INSTALLED LSBInit_NOT_RUNNING LSBStatus_NOT_RUNNING LSBStatus_UNKNOWN ECONNREFUSED ENOENT
+  LSBInit_NOT_INSTALLED LSBInit_NOT_RUNNING LSBStatus_NOT_RUNNING LSBStatus_UNKNOWN ECONNREFUSED ENOENT updateStopOk
 
 /-- every exit status the model assigns is one of the generated constants; all of them are non-zero -/
 macro "nz" : tactic => `(tactic| (simp only [ctl_gen]; decide))
@@ -334,5 +335,218 @@ theorem safeP_protect {ok : Call → Bool} {P : Prop} {f : S → S} (hf : SafeP 
     intro c' hc'
     rw [calls_net] at hc'
     exact c c' hc'
+
+/-! ### forward logic: when every recorded call succeeded, the exit status stays 0
+  `Fine s` : exit status 0 and no pending Python exception (a harness error may be pending).
+  `Fwd succ f` : `f` only adds calls, and from a fine state it ends fine provided every call recorded at the
+  end satisfies `succ`. -/
+def Fine (s : S) : Prop := s.p.exit = 0 ∧ (s.err = none ∨ isHarnessErr s.err = true)
+def Grow (f : S → S) : Prop := ∀ s c, c ∈ s.p.calls → c ∈ (f s).p.calls
+def FwdC (succ : Call → Bool) (f : S → S) : Prop :=
+  ∀ s, Fine s → (∀ c ∈ (f s).p.calls, succ c = true) → Fine (f s)
+def Fwd (succ : Call → Bool) (f : S → S) : Prop := Grow f ∧ FwdC succ f
+
+theorem grow_id : Grow id := fun _ _ h => h
+theorem grow_comp {f g : S → S} (hf : Grow f) (hg : Grow g) : Grow (fun s => g (f s)) :=
+  fun s c h => hg _ c (hf s c h)
+theorem grow_of_calls_eq {f : S → S} (h : ∀ s, (f s).p.calls = s.p.calls) : Grow f :=
+  fun s c hc => by rw [h]; exact hc
+theorem grow_out (l : String) : Grow (out l) := grow_of_calls_eq (calls_out l)
+theorem grow_outs (ls : List String) : Grow (outs ls) := grow_of_calls_eq (calls_outs ls)
+theorem grow_setExit (n : Int) : Grow (setExit n) := grow_of_calls_eq (calls_setExit n)
+theorem grow_raise (e : Exc) : Grow (raise e) := grow_of_calls_eq (calls_raise e)
+theorem grow_foldl {α : Type} (f : α → S → S) (h : ∀ a, Grow (f a)) (l : List α) :
+    Grow (fun s => l.foldl (fun s a => f a s) s) := by
+  induction l with
+  | nil => exact grow_id
+  | cons a l ih => intro s c hc; simp only [List.foldl_cons]; exact ih _ c (h a s c hc)
+
+theorem fwd_id (succ : Call → Bool) : Fwd succ id := ⟨grow_id, fun _ h _ => h⟩
+
+theorem fwd_comp {succ : Call → Bool} {f g : S → S} (hf : Fwd succ f) (hg : Fwd succ g) :
+    Fwd succ (fun s => g (f s)) := by
+  refine ⟨grow_comp hf.1 hg.1, fun s hs H => ?_⟩
+  have h1 : Fine (f s) := hf.2 s hs (fun c hc => H c (hg.1 _ c hc))
+  exact hg.2 _ h1 H
+
+theorem fwd_foldl {succ : Call → Bool} {α : Type} (f : α → S → S) (l : List α) (h : ∀ a ∈ l, Fwd succ (f a)) :
+    Fwd succ (fun s => l.foldl (fun s a => f a s) s) := by
+  induction l with
+  | nil => exact fwd_id succ
+  | cons a l ih =>
+    have h1 := h a List.mem_cons_self
+    have h2 := ih (fun x hx => h x (List.mem_cons_of_mem _ hx))
+    simp only [List.foldl_cons]
+    exact fwd_comp h1 h2
+
+theorem fine_out (l : String) (s : S) : Fine (out l s) ↔ Fine s := by
+  unfold out emit guard Fine; split <;> simp_all
+theorem fine_outs (ls : List String) (s : S) : Fine (outs ls s) ↔ Fine s := by
+  unfold outs
+  induction ls generalizing s with
+  | nil => simp
+  | cons l ls ih => simp [List.foldl_cons, ih, fine_out]
+theorem fwd_out (succ : Call → Bool) (l : String) : Fwd succ (out l) :=
+  ⟨grow_out l, fun s h _ => (fine_out l s).2 h⟩
+theorem fwd_outs (succ : Call → Bool) (ls : List String) : Fwd succ (outs ls) :=
+  ⟨grow_outs ls, fun s h _ => (fine_outs ls s).2 h⟩
+theorem fine_badScript (s : S) (h : Fine s) : Fine (badScript s) := by
+  unfold badScript raise guard; unfold Fine at *
+  split
+  · exact h
+  · simp [h.1, isHarnessErr]
+theorem fwd_badScript (succ : Call → Bool) : Fwd succ badScript :=
+  ⟨grow_raise _, fun s h _ => fine_badScript s h⟩
+
+/-- a branch that cannot be taken when every call succeeded -/
+theorem fwdC_of_false {succ : Call → Bool} {f : S → S} (h : ∀ s, ¬ (∀ c ∈ (f s).p.calls, succ c = true)) : FwdC succ f :=
+  fun s _ H => absurd H (h s)
+
+theorem fwd_rpc {succ : Call → Bool} {m : String} {a : List String}
+    {kOk : Val → S → S} {kFault : Int → String → S → S} {kSock : Int → S → S}
+    (g1 : ∀ v, Grow (kOk v)) (g2 : ∀ c t, Grow (kFault c t)) (g3 : ∀ e, Grow (kSock e))
+    (hp : ∀ c, succ ⟨m, a, .proto c⟩ = false)
+    (h1 : ∀ v, succ ⟨m, a, .ok v⟩ = true → FwdC succ (kOk v))
+    (h2 : ∀ c t, succ ⟨m, a, .fault c t⟩ = true → FwdC succ (kFault c t))
+    (h3 : ∀ e, succ ⟨m, a, .sock e⟩ = true → FwdC succ (kSock e)) :
+    Fwd succ (rpc m a kOk kFault kSock) := by
+  have step : ∀ (s : S) (ans : Ans) (rest : List Ans),
+      let s1 : S := { s with p := { s.p with script := rest, calls := s.p.calls ++ [⟨m, a, ans⟩] } }
+      (∀ c, c ∈ s.p.calls → c ∈ s1.p.calls) ∧ (⟨m, a, ans⟩ : Call) ∈ s1.p.calls ∧ (Fine s → Fine s1) := by
+    intro s ans rest
+    refine ⟨fun c hc => by simp [hc], by simp, fun h => ?_⟩
+    unfold Fine at *; exact h
+  constructor
+  · intro s c hc
+    unfold rpc guard
+    split
+    · exact hc
+    · dsimp only
+      split
+      · simpa using hc
+      · rename_i ans rest _
+        have hs := (step s ans rest).1 c hc
+        cases ans with
+        | ok v => exact g1 v _ c hs
+        | fault code t => exact g2 code t _ c hs
+        | proto code => simpa using hs
+        | sock e => exact g3 e _ c hs
+  · intro s hs H
+    unfold rpc guard at H ⊢
+    split
+    · exact hs
+    · rename_i hne
+      rw [if_neg hne] at H
+      dsimp only at H ⊢
+      split
+      · exact fine_badScript s hs
+      · rename_i ans rest heq
+        rw [heq] at H
+        dsimp only at H
+        obtain ⟨_, hmem, hfine⟩ := step s ans rest
+        cases ans with
+        | ok v =>
+          dsimp only at H ⊢
+          exact h1 v (H _ (g1 v _ _ hmem)) _ (hfine hs) H
+        | fault code t =>
+          dsimp only at H ⊢
+          exact h2 code t (H _ (g2 code t _ _ hmem)) _ (hfine hs) H
+        | proto code =>
+          dsimp only at H ⊢
+          exfalso
+          have := H ⟨m, a, .proto code⟩ (by simpa using hmem)
+          rw [hp code] at this; cases this
+        | sock e =>
+          dsimp only at H ⊢
+          exact h3 e (H _ (g3 e _ _ hmem)) _ (hfine hs) H
+
+theorem calls_setExitFromFault (code : Int) (ign : Option Int) (s : S) :
+    (setExitFromFault code ign s).p.calls = s.p.calls := by
+  unfold setExitFromFault guard; repeat' split
+  all_goals simp
+
+theorem grow_printOne (line : LineFn) (ign : Option Int) (g : String) (n : Option String) (st : Int) (d : String) :
+    Grow (printOne line ign g n st d) := by
+  unfold printOne
+  split
+  · exact grow_raise _
+  · exact grow_comp (grow_out _) (grow_of_calls_eq (calls_setExitFromFault st ign))
+
+theorem grow_printResults (line : LineFn) (ign : Option Int) (rs : List Res) : Grow (printResults line ign rs) := by
+  induction rs with
+  | nil => exact grow_id
+  | cons r rs ih =>
+    show Grow (fun s => printResults line ign rs (printOne line ign r.group (some r.name) r.status r.desc s))
+    exact grow_comp (grow_printOne _ _ _ _ _ _) ih
+
+theorem fine_setExitFromFault {code : Int} {ign : Option Int} (h : onIgn setexit_g0 code ign = true) (s : S) :
+    Fine (setExitFromFault code ign s) ↔ Fine s := by
+  unfold setExitFromFault guard
+  split
+  · rfl
+  · simp [h]
+
+/-- printing one result whose status has a wording and is SUCCESS or the tolerated code keeps a fine state fine -/
+theorem fwd_printOne (succ : Call → Bool) {line : LineFn} {ign : Option Int} {g : String} {n : Option String}
+    {st : Int} {d : String} (hl : (line g n st d).isSome) (hs : onIgn setexit_g0 st ign = true) :
+    Fwd succ (printOne line ign g n st d) := by
+  refine ⟨grow_printOne _ _ _ _ _ _, fun s h _ => ?_⟩
+  obtain ⟨l, hl⟩ := Option.isSome_iff_exists.1 hl
+  unfold printOne
+  rw [hl]
+  exact (fine_setExitFromFault hs _).2 ((fine_out l s).2 h)
+
+theorem fwd_printResults (succ : Call → Bool) {line : LineFn} {ign : Option Int} {rs : List Res}
+    (h : ∀ r ∈ rs, (line r.group (some r.name) r.status r.desc).isSome ∧ onIgn setexit_g0 r.status ign = true) :
+    Fwd succ (printResults line ign rs) := by
+  induction rs with
+  | nil => exact fwd_id succ
+  | cons r rs ih =>
+    show Fwd succ (fun s => printResults line ign rs (printOne line ign r.group (some r.name) r.status r.desc s))
+    exact fwd_comp (fwd_printOne succ (h r List.mem_cons_self).1 (h r List.mem_cons_self).2)
+      (ih (fun x hx => h x (List.mem_cons_of_mem _ hx)))
+
+theorem fine_net (s : S) (h : Fine s) : net s = s := by
+  unfold net
+  split
+  · rfl
+  · rename_i e he
+    have : isHarnessErr (some e) = true := by
+      rcases h.2 with h2 | h2
+      · rw [he] at h2; cases h2
+      · rw [he] at h2; exact h2
+    rw [if_pos this]
+
+theorem grow_net : Grow net := grow_of_calls_eq calls_net
+
+theorem fwd_protect {succ : Call → Bool} {f : S → S} (hf : Fwd succ f) : Fwd succ (protect f) := by
+  have hg : Grow (protect f) := by
+    intro s c hc
+    unfold protect; dsimp only
+    split
+    · split
+      · exact grow_net _ c (hf.1 _ c (by simpa using hf.1 s c hc))
+      · exact grow_net _ c (by simpa using hf.1 s c hc)
+    · exact grow_net _ c (hf.1 s c hc)
+  refine ⟨hg, fun s hs H => ?_⟩
+  -- every call of `f s` is still recorded at the end
+  have hsub : ∀ c ∈ (f s).p.calls, c ∈ (protect f s).p.calls := by
+    intro c hc
+    unfold protect; dsimp only
+    split
+    · split
+      · exact grow_net _ c (hf.1 _ c (by simpa using hc))
+      · exact grow_net _ c (by simpa using hc)
+    · exact grow_net _ c hc
+  have h1 : Fine (f s) := hf.2 s hs (fun c hc => H c (hsub c hc))
+  have hnp : ∀ c, (f s).err ≠ some (Exc.proto c) := by
+    intro c he
+    rcases h1.2 with h2 | h2
+    · rw [he] at h2; cases h2
+    · rw [he] at h2; simp [isHarnessErr] at h2
+  unfold protect; dsimp only
+  split
+  · rename_i c he; exact absurd he (hnp c)
+  · rw [fine_net _ h1]; exact h1
 
 end Sv.Ctl
